@@ -29,6 +29,15 @@ fn main() {
     }));
     let tf3: Vec<TF> = vec![TF { n: [1, 1, 1], recipe: 0 }, TF { n: [2, 0, 1], recipe: 0 }, TF { n: [1, 2, 0], recipe: 4 }, TF { n: [0, 1, 2], recipe: 2 }];
     let s4 = Spec { n_min: 4, n_max: 4, e_min: 0, e_max: 1, ks: 1, kt: 1, lw: 3, lx: 1, a: 1, b: 1, q: 0 };
+    // every triple of image sizes in {0,1,2}^3 (single-operation images) next to the mixed recipes
+    let mut tf3 = tf3;
+    for a in 0..3usize {
+        for b in 0..3usize {
+            for c in 0..3usize {
+                tf3.push(TF { n: [a, b, c], recipe: 0 });
+            }
+        }
+    }
     let u4 = s4.universe();
     ctx.run_slice(Slice::new(format!("native-three-labels-four-nodes[{} x {} functors]", s4.name(), tf3.len()), u4.count(), |i, loc| {
         let f = u4.get_open(i);
